@@ -233,7 +233,7 @@ Inductive hop :=
 | HUpdates (h c : nat)
 | HLoop (l t : nat)                                 (* StreamLoop::loop_ / CellLoop::loop_ *)
 | HListen (l s : nat) (strong : bool)
-| HListenC (l c : nat)
+| HListenC (l c : nat) (strong : bool)                (* Cell::listen / Cell::listen_weak *)
 | HUnlisten (l : nat)
 | HDropL (l : nat)
 | HClone (h h' : nat)                               (* h' := clone of h *)
@@ -359,13 +359,13 @@ Definition hstep (st : hstate) (op : hop) : res hstate :=
       else Ok st
     | None => Ok st
     end
-  | HListenC l c =>
+  | HListenC l c strong =>
     match lookup (slots st) c with
     | Some sc =>
       if free_listener st l then
         let base := base_of st in
-        match run_ops st (inst_ops t_listen_c [sc] base ++ [GClone (base + 4)]) (t_new t_listen_c) with
-        | Ok st1 => Ok (with_listener st1 l (mkL (base + 4) true true true))
+        match run_ops st (inst_ops t_listen_c [sc] base ++ (if strong then [GClone (base + 4)] else [])) (t_new t_listen_c) with
+        | Ok st1 => Ok (with_listener st1 l (mkL (base + 4) strong true true))
         | r => r
         end
       else Ok st
